@@ -87,6 +87,7 @@ def run(check, prog):
     tolerance_slots(check, prog)
     cluster_handoff(check, prog)
     option_slots(check, prog)
+    fortran_double_precision(check, prog)
     cluster_order_cap(check, prog)
     # "at every detector point and polarization": the lens theories place the
     # Mie series relative to the polarisation direction (rule shared with C05)
@@ -963,6 +964,77 @@ def cluster_handoff(check, prog):
                           slot, show(slots.get(slot, NONE))[:120],
                           '' if got is None else ' = %s-part of %s * %s' % (
                               got[0], got[1], c0.show(got[2]))))
+
+
+def fortran_double_precision(check, prog):
+    """H9: the compiled solvers compute in double precision (REAL*8 / COMPLEX*16
+    throughout): the relative index must not pass through a single-precision
+    value on its way in.  Fortran's CMPLX(a, b) without a KIND argument returns
+    a *default* (single precision) complex whatever the kind of a and b -- the
+    double form is DCMPLX(a, b) or CMPLX(a, b, KIND=8).  A bare CMPLX of double
+    data rounds it to 24 bits: the cluster solver then agrees with the Lorenz-Mie
+    solver evaluated at float32(m), 1e-7 away in general and tens of per cent on
+    a narrow resonance."""
+    import re
+    from hpstatic.fortran import FortranProgram, scan_file
+    from .c10 import meson_inputs, MIE_DIR, python_entry_points
+    files = meson_inputs(prog.root, MIE_DIR)
+    fp = FortranProgram(prog.root, files)
+    entries = python_entry_points(prog, ['mieangfuncs', 'scsmfo_min', 'uts_scsmfo'])
+    reach = {}
+    for ent in entries:
+        r = fp.reachable(ent)
+        if r:
+            reach.update(r)
+    check.floor('mie_f units reachable from Python', len(reach), 10)
+    BARE = re.compile(r'(?<![A-Za-z0-9_])cmplx\s*\(', re.I)
+
+    def bare_cmplx(text):
+        """argument lists of CMPLX calls without a kind"""
+        out = []
+        for m in BARE.finditer(text):
+            depth, i, args, cur = 1, m.end(), [], ''
+            while i < len(text) and depth:
+                ch = text[i]
+                if ch == '(':
+                    depth += 1
+                elif ch == ')':
+                    depth -= 1
+                    if not depth:
+                        break
+                if ch == ',' and depth == 1:
+                    args.append(cur)
+                    cur = ''
+                else:
+                    cur += ch
+                i += 1
+            args.append(cur)
+            if len(args) < 3 and not any('kind' in a.lower() for a in args):
+                out.append(','.join(a.strip() for a in args))
+        return out
+    # the scanner itself, on a two-line example (the expected count below is 0)
+    assert bare_cmplx('ri=cmplx(sn,sk)') == ['sn,sk'] and \
+        not bare_cmplx('ri=dcmplx(sn,sk)') and not bare_cmplx('z=cmplx(a,b,kind=8)')
+    n = 0
+    nbad = 0
+    seen = set()
+    for name in sorted(reach):
+        u = fp.units[name]
+        if id(u) in seen:
+            continue
+        seen.add(id(u))
+        for line, text in u.stmts:
+            n += 1
+            for args in bare_cmplx(text):
+                nbad += 1
+                check.bad('H9-double-precision', '%s: CMPLX(%s)' % (u.name, args),
+                          'CMPLX without a KIND returns single precision: the double '
+                          'data are rounded to 24 bits (use DCMPLX)',
+                          '%s:%d' % (u.path, line))
+    check.floor('Fortran statements scanned for single-precision CMPLX', n, 500)
+    if not nbad:
+        check.ok('H9-double-precision', 'mie_f sources',
+                 'no bare CMPLX in any unit reachable from Python', MIE_DIR)
 
 
 def option_slots(check, prog):
